@@ -244,7 +244,13 @@ pub fn run(out: &mut Out, rng: &mut Rng, thorough: bool) {
 			}
 			v
 		};
-		let tos: Vec<Fmt> = if thorough || item.label.starts_with("fixed") { ALL_FMTS.to_vec() } else { vec![*rng.pick(&ALL_FMTS), Fmt::Json] };
+		let tos: Vec<Fmt> = if thorough || item.label.starts_with("fixed") || item.label.starts_with("wide") {
+			ALL_FMTS.to_vec()
+		} else {
+			// TOML is always a target: it is the one whose slice and reader
+			// routes differ inside xt (Value::try_from vs Value::deserialize).
+			vec![Fmt::Toml, *rng.pick(&[Fmt::Json, Fmt::Yaml, Fmt::Msgpack])]
+		};
 		for from in &froms {
 			for to in &tos {
 				let slice = translate(&item.bytes, &Supply::Slice, *from, *to);
